@@ -4,6 +4,7 @@ import BqVerif.Proofs.RulesComplex
 import BqVerif.Proofs.Accept
 import BqVerif.Proofs.Structural
 import BqVerif.Proofs.Walsh
+import BqVerif.Proofs.Demultiplex
 /-! # C10 — every circuit-rewriting pass preserves its target within stated tolerance
 
 Four classes (DESIGN.md §4 C10, design_notes/C10.md):
@@ -20,8 +21,10 @@ Four classes (DESIGN.md §4 C10, design_notes/C10.md):
   FIXED target, and is a sub-list of the input's operations.
 * **structural** — same per-qudit timelines after flattening ⇒ same denotation, pointwise
   replacement by equal-meaning gates, insertion of identities, merging adjacent gates.
-* analytic decompositions (QSD, Block-ZXZ, Walsh, diagonal extraction): validated numerically by the
-  harness only (LAPACK facts). -/
+* **analytic** — the recombination steps that are algebra: the CNOT ladder of the Walsh synthesis
+  (parity into the last qubit, restored afterwards) and the demultiplexing identity of QSD /
+  Block-ZXZ; the factorizations themselves (cossin, schur, logm) are LAPACK facts validated
+  numerically by the harness. -/
 namespace BqVerif.C10
 open BqVerif.Rules BqVerif.Rules.Generated BqVerif.Accept
 
@@ -267,5 +270,20 @@ theorem C10_walsh_outside (locs : List Nat) (x : Bits) (q : Nat) (hq : q ∉ loc
 open BqVerif.Walsh in
 example : ladder (pairs [0, 2]) (fun _ => true) 1 = true :=
   C10_walsh_outside [0, 2] _ 1 (by decide)
+
+/-! ### QSD / Block-ZXZ: demultiplexing -/
+
+/-- `create_multiplexed_circ` / `demultiplex`: if `u₁·u₂† = v·d²·v†` (what `schur` is asked for) and
+`w = d·v†·u₂`, then `u₁ = v·d·w` and `u₂ = v·d†·w`: the multiplexor `u₁ ⊕ u₂` is
+`(I⊗v)·(d ⊕ d†)·(I⊗w)` — left gate `w`, multiplexed RZ `d ⊕ d†`, right gate `v`. Any monoid. -/
+theorem C10_qsd_demultiplex {M : Type} [Monoid M] (u1 u2 u2d v vd d dd : M)
+    (heig : u1 * u2d = v * (d * d) * vd) (hu2 : u2d * u2 = 1) (hd : dd * d = 1)
+    (hv : v * vd = 1) :
+    u1 = v * d * (d * vd * u2) ∧ u2 = v * dd * (d * vd * u2) :=
+  BqVerif.Demultiplex.demultiplex u1 u2 u2d v vd d dd heig hu2 hd hv
+
+/-- Non-vacuity: in ℤ, u₁ = u₂ = v = 1 and the non-trivial square root d = d† = −1 of u₁u₂†. -/
+example : (1 : ℤ) = 1 * -1 * (-1 * 1 * 1) ∧ (1 : ℤ) = 1 * -1 * (-1 * 1 * 1) :=
+  C10_qsd_demultiplex 1 1 1 1 1 (-1) (-1) (by decide) (by decide) (by decide) (by decide)
 
 end BqVerif.C10
